@@ -20,6 +20,8 @@ def instances(tier):
     spec = {"vars": {"v0": [0, 1], "v1": [0, 1]}, "cons": [{"name": "c0", "scope": ["v0", "v1"], "table": B[2]}], "mode": "min"}
     for mapping in ({"a0": ["v0"], "a1": ["v1"]}, {"a0": ["v0", "v1"], "a1": []}):
         jobs.append({"spec": spec, "agents": ["a0", "a1"], "mapping": mapping, "algo": "adsa", "params": {"stop_cycle": 3, "period": 0.1}, "timeout": 10})
+    # a run that does NOT end by itself: the orchestrator's timeout timer fires and stops the agents
+    jobs.append({"spec": spec, "agents": ["a0", "a1"], "mapping": {"a0": ["v0"], "a1": ["v1"]}, "algo": "dsa", "params": {}, "timeout": 0.3})
     return jobs
 
 
